@@ -34,6 +34,7 @@ pub struct Norm {
     pub str_params: Vec<String>,
     pub string_exprs: Vec<String>,
     pub seq_args: Vec<String>,
+    pub set_into_vec: Vec<String>,
     pub float_casts: Option<String>,
     pub into_vec: Vec<String>,
     pub iter_on: Vec<String>,
@@ -375,6 +376,7 @@ impl Norm {
             str_params: strs("str_params"),
             string_exprs: strs("string_exprs"),
             seq_args: strs("seq_args"),
+            set_into_vec: strs("set_into_vec"),
             float_casts: req["float_casts"].as_str().map(|x| x.to_string()),
             into_vec: strs("into_vec"),
             iter_on: strs("iter_on"),
@@ -1330,6 +1332,17 @@ impl VisitMut for Norm {
                     }
                 }
                 {
+                    // N8i (loop form, option set_into_vec=NAME): `for P in NAME.into_iter()` over a hash set => over hq_set_into_vec(NAME)
+                    // (every element exactly once, in an unspecified order)
+                    let t: String = f.expr.to_token_stream().to_string().chars().filter(|c| !c.is_whitespace()).collect();
+                    if let Some(nm) = self.set_into_vec.iter().find(|x| format!("{}.into_iter()", x) == t || **x == t).cloned() {
+                        let sp = f.for_token.span;
+                        let id: Expr = syn::parse_str(&nm).expect("set_into_vec");
+                        *f.expr = parse_quote!(hq_set_into_vec(#id));
+                        self.log("N8i-consume-set-via-vec", sp);
+                    }
+                }
+                {
                     // N9b (general form): `for P in EXPR` with EXPR: &Collection named by its token text => `for P in EXPR.iter()`
                     let t: String = f.expr.to_token_stream().to_string().chars().filter(|c| !c.is_whitespace()).collect();
                     if !matches!(&*f.expr, Expr::Path(_)) && self.iter_on.iter().any(|x| *x == t) {
@@ -1585,7 +1598,12 @@ impl VisitMut for Norm {
                         // N8n (option map_collect=1, for functions that collect such chains into a Vec): ITER.map(|p| B).collect() => push loop over ITER (definition)
                         if let Expr::MethodCall(inner) = &*mc.receiver {
                             if let Expr::Closure(c) = &inner.args[0] {
-                                let it = &inner.receiver;
+                                // N8i (option set_into_vec=NAME): a consumed hash set is iterated through hq_set_into_vec
+                                let it_txt: String = inner.receiver.to_token_stream().to_string().chars().filter(|c| !c.is_whitespace()).collect();
+                                let it_set: Option<Expr> = self.set_into_vec.iter().find(|x| format!("{}.into_iter()", x) == it_txt)
+                                    .map(|nm| { let id: Expr = syn::parse_str(nm).expect("set_into_vec"); parse_quote!(hq_set_into_vec(#id)) });
+                                let it_owned: Expr = it_set.unwrap_or_else(|| (*inner.receiver).clone());
+                                let it = &it_owned;
                                 let pat = match c.inputs[0].clone() {
                                     Pat::Type(pt) => *pt.pat,
                                     p => p,
